@@ -198,12 +198,9 @@ func VH_C16_Buckets(k, shape, pfmt, rx int) {
 	vAssert(bi == len(both.parts), "nothing else is shown when filter and match are combined")
 }
 
-// VH_C16_Goroutines: the race rendering path (one block per goroutine).
-//
-//verif:prop C16
-//verif:param k 1..3
-//verif:param rx 0..2
-func VH_C16_Goroutines(k, rx int) {
+// vhRaceSnap: a race-report snapshot of k goroutines with symbolic state,
+// package and file names.
+func vhRaceSnap(k int) *stack.Snapshot {
 	s := &stack.Snapshot{}
 	for i := 0; i < k; i++ {
 		g := &stack.Goroutine{ID: 10 + i, First: i == 0, RaceAddr: []uint64{0xc000012339, 0xc000012343, 0x1000}[i], RaceWrite: i%2 == 0}
@@ -221,6 +218,16 @@ func VH_C16_Goroutines(k, rx int) {
 		g.Stack.Calls = []stack.Call{c}
 		s.Goroutines = append(s.Goroutines, g)
 	}
+	return s
+}
+
+// VH_C16_Goroutines: the race rendering path (one block per goroutine).
+//
+//verif:prop C16
+//verif:param k 1..3
+//verif:param rx 0..2
+func VH_C16_Goroutines(k, rx int) {
+	s := vhRaceSnap(k)
 	pf := basePath
 	srcLen, pkgLen := calcGoroutinesLengths(s, pf)
 	out := &vhOut{}
@@ -259,4 +266,37 @@ func VH_C16_Goroutines(k, rx int) {
 		}
 	}
 	vAssert(bi == len(both.parts), "nothing else is shown when filter and match are combined")
+}
+
+// VH_C14_ConsoleKeepsSnapshot: rendering a race snapshot to the console, with
+// or without filter / match expressions (which hide some goroutines and keep
+// others), writes nothing that existed before the call (engine write barrier);
+// natively the goroutine list is compared before and after.
+//
+//verif:prop C14
+//verif:param k 2..3
+//verif:param rx 0..2
+//verif:param mode 0..2
+func VH_C14_ConsoleKeepsSnapshot(k, rx, mode int) {
+	s := vhRaceSnap(k)
+	before := append([]*stack.Goroutine{}, s.Goroutines...)
+	var filter, match *regexp.Regexp
+	switch mode {
+	case 1:
+		filter = vhFilters[rx]
+	case 2:
+		match = vhFilters[rx]
+	}
+	vBarrierOn()
+	out := &vhOut{} // the writer is this call's own
+	_ = writeGoroutinesToConsole(out, vhPalette, s, basePath, false, filter, match)
+	vBarrierOff()
+	vReach("race snapshot rendered under write barrier")
+	vAssert(len(s.Goroutines) == k, "the snapshot keeps its goroutines")
+	for i := range before {
+		vAssert(s.Goroutines[i] == before[i] && s.Goroutines[i].ID == 10+i, "the snapshot's goroutine list is unchanged by rendering")
+	}
+	if mode != 0 && len(out.parts) != 0 && len(out.parts) != 2*k {
+		vReach("some goroutines hidden, some shown")
+	}
 }
